@@ -243,7 +243,9 @@ func (p *c12) RunCase(i int) *core.CaseResult {
 	c := &p.cases[i]
 	r.BoundDone = p.bound
 	for di, mk := range c12Docs() {
-		cfg := vrt.Config{MapOrder: true, Sched: c.spawns, Quiet: true}
+		// the selector-cache mutex is a scheduling point only where the library's own goroutines
+		// evaluate the same fresh selectors side by side (PARALLEL joins)
+		cfg := vrt.Config{MapOrder: true, Sched: c.spawns, Quiet: !strings.Contains(c.sql, "PARALLEL")}
 		vrt.SetQuiet(genql.VerifSelectorMutex())
 		gq.MaxSched, gq.MaxMap = 1, p.bound
 		bound := p.bound + 1
